@@ -7,6 +7,7 @@
    (each stream compared with its solo run; `-race` in the thorough tier) are supporting evidence. *)
 From Coq Require Import String.
 From Verif Require Import Base.ListX Indep.Frame Indep.StoresBaseline.
+From Verif Require Indep.Alias.
 From VerifGen Require Import GlobalStores GlobalVars OptionCaptures.
 
 (* any number of instances, any schedule: each instance's outputs and final state are those of its solo run *)
@@ -33,6 +34,23 @@ Print Assumptions C16_no_shared_stateful_objects.
 Theorem C16_options_capture_no_state : option_captures = [].
 Proof. reflexivity. Qed.
 Print Assumptions C16_options_capture_no_state.
+
+(* ... nor through the messages in flight between a producer and the consumer of its stream: they are values, so a consumer
+   that lags behind (or runs beside) its producer decodes, for every interleaving of produce and consume steps, exactly
+   the produced payloads in order; messages that are views of the stream buffer do not (refuted) *)
+Theorem C16_messages_are_values : forall ops,
+  (Alias.decoded (Alias.run false ops) ++ map Alias.payload_of (Alias.inflight (Alias.run false ops)))%list = Alias.produced ops.
+Proof. exact Alias.messages_are_values. Qed.
+Print Assumptions C16_messages_are_values.
+
+Theorem C16_caught_up_decodes_all : forall ops, Alias.inflight (Alias.run false ops) = [] -> Alias.decoded (Alias.run false ops) = Alias.produced ops.
+Proof. exact Alias.caught_up_decodes_all. Qed.
+Print Assumptions C16_caught_up_decodes_all.
+
+Example C16_alias_refuted :
+  let ops := [Alias.Produce [1; 2; 3]; Alias.Produce [7; 8]; Alias.Consume; Alias.Consume] in
+  Alias.inflight (Alias.run true ops) = [] /\ Alias.decoded (Alias.run true ops) = [[7; 8; 3]; [7; 8]] /\ Alias.decoded (Alias.run false ops) = Alias.produced ops.
+Proof. exact Alias.alias_refuted. Qed.
 
 Example C16_example :
   let step := fun (_ : unit) (s : N) (x : N) => (s + x, s + x) in
